@@ -220,7 +220,9 @@ def assemble(prop, tier, seed, unit_results, fn_results, wall):
                                    "replay": {"status": "confirmed", "failed_clauses": [f.get("detail", "")], "inputs": f.get("witness")},
                                    "solver": "BND (bounded execution of the real code)"})
     # ---- classify violations against known findings; write replay files
-    rdir = os.path.join(VERIF, "replays", prop)
+    from . import extract as _ex
+    rbase = os.path.join(VERIF, "replays") if _ex.REPO == "/repo" else os.path.join(os.environ.get("TMPDIR", "/tmp"), "verif-scratch-replays")
+    rdir = os.path.join(rbase, prop)
     os.makedirs(rdir, exist_ok=True)
     for old in os.listdir(rdir):       # replay files belong to one run
         try:
@@ -241,7 +243,7 @@ def assemble(prop, tier, seed, unit_results, fn_results, wall):
         used = seen_names.get(base, 0)
         seen_names[base] = used + 1
         fname = base + (f".{used}" if used else "") + ".json"
-        rpath = os.path.join(VERIF, "replays", prop, fname)
+        rpath = os.path.join(rdir, fname)
         with open(rpath, "w") as fh:
             json.dump({"property": prop, "obligation": v["obligation"], "kind": v["kind"], "unit": v["unit"],
                        "target": v.get("target"), "solver": v["solver"], "counter_model": v.get("model"), "replay": rep,
